@@ -183,6 +183,9 @@ pub fn replay(c: &Value) -> Option<(String, String)> {
         check_tagger(&rules, &text, &labels, n_tags, &tags).map(|(k, w)| (format!("{k} rules={rules:?} text={:?} labels={} n_tags={n_tags} pattern={pattern}", gen::s(&text), lab(&labels)), w))
     } else {
         let id = c["filter"].as_u64()? as usize;
+        if let Some(l) = c["label"].as_str() {
+            return check_boundary_filter(id, &text, &labels, n_tags, &tags).map(|(k, w)| (format!("{k} filter={id} {l}"), w.chars().take(400).collect()));
+        }
         check_boundary_filter(id, &text, &labels, n_tags, &tags).map(|(k, w)| (format!("{k} filter={id} text={:?} labels={} n_tags={n_tags}", gen::s(&text), lab(&labels)), w))
     }
 }
@@ -237,8 +240,11 @@ pub fn run(tier: Tier) -> ! {
     {
         let mut long_cases = vec![];
         for rot in 0..sigma.len() {
-            for len in [30usize, 64] {
-                let text: Vec<char> = (0..len).map(|i| sigma[(i * (rot + 1) + rot) % sigma.len()]).collect();
+            // ... and threshold lengths (u8, 1 KiB; thorough also 4 KiB and u16) for three rotations
+            let lens: Vec<usize> = if rot % 5 == 0 { tier.pick(vec![30usize, 64, 255, 256, 257, 1025], vec![30, 64, 255, 256, 257, 1025, 4097, 65535, 65537]) } else { vec![30, 64] };
+            for len in lens {
+                // rotation 0 is replaced by a fixed scrambled sequence above 64 characters (every adjacent pair occurs)
+                let text: Vec<char> = if rot == 0 && len > 64 { (0..len).map(|i| sigma[(gen::mix(i as u64) % sigma.len() as u64) as usize]).collect() } else { (0..len).map(|i| sigma[(i * (rot + 1) + rot) % sigma.len()]).collect() };
                 for pat in gen::vectors(3, 2) {
                     let labels: Vec<u8> = (0..len - 1).map(|i| pat[i % 2]).collect();
                     long_cases.push((text.clone(), labels));
@@ -283,6 +289,41 @@ pub fn run(tier: Tier) -> ! {
                 }
                 if let Some((k, what)) = check_boundary_filter(id, text, labels, 0, &[]) {
                     chk.violation(format!("{k} filter={id} text={:?} labels={} n_tags=0", gen::s(text), lab(labels)), what, json!({"kind": "boundary", "filter": id, "text": gen::s(text), "labels": labels, "n_tags": 0, "pattern": 0}));
+                }
+            }
+        });
+    }
+    // long-unit family: ONE unit of what a filter merges (a grapheme cluster of a base plus k combining marks or
+    // k ZWJ-joined pictographs, a run of k characters of one type) with k around 255/256 and 1 KiB (thorough also
+    // 4 KiB and u16), followed by two short units of the same kind and one of another; all-W and all-U boundaries
+    {
+        let ks: Vec<usize> = tier.pick(vec![254usize, 255, 256, 257, 1024], vec![254, 255, 256, 257, 1024, 4096, 65534, 65535, 65536]);
+        let mut unit_cases = vec![];
+        for &k in &ks {
+            for (head, u, other) in [('a', '\u{301}', '亜'), ('👨', '\u{200d}', 'a'), ('1', '1', 'a'), ('a', 'a', '1'), ('あ', 'あ', 'a'), ('ア', 'ア', 'a'), ('亜', '亜', 'a'), ('.', '.', 'a')] {
+                for o in 0..=1usize {
+                    let mut text: Vec<char> = vec![other; o];
+                    text.push(head);
+                    text.extend(std::iter::repeat(u).take(k));
+                    text.extend([other, head, u, u, other, head, u]);
+                    for base in [1u8, 2] {
+                        unit_cases.push((text.clone(), vec![base; text.len() - 1]));
+                    }
+                }
+            }
+        }
+        chk.set("long_unit_cases", json!(unit_cases.len()));
+        chk.set("long_unit_sizes", json!(ks));
+        unit_cases.par_iter().for_each(|(text, labels)| {
+            for id in 0..8 {
+                chk.eval(1);
+                if expected_boundaries(id, text, labels) != *labels {
+                    chk.nontrivial(1);
+                }
+                if let Some((k, what)) = check_boundary_filter(id, text, labels, 0, &[]) {
+                    let what: String = what.chars().take(400).collect();
+                    let head: String = text.iter().take(3).collect();
+                    chk.violation(format!("{k} filter={id} long-unit head={head:?} len={} labels={}", text.len(), labels[0]), what, json!({"kind": "boundary", "filter": id, "text": gen::s(text), "labels": labels, "n_tags": 0, "pattern": 0, "label": format!("long-unit head={head:?} len={} labels={}", text.len(), labels[0])}));
                 }
             }
         });
